@@ -310,10 +310,93 @@ def op_const(op):
     return op.get("k")
 
 
+def fingerprint(F, f):
+    """what identifies a function apart from its name: parameter and result types, and the set of things it calls"""
+    import re as _re
+    cs = set()
+    own = f.path.rsplit("::", 1)[-1]
+    for q in F.with_closures(f.path):
+        g = F.fns.get(q)
+        if g is None:
+            continue
+        for b, t in g.calls():
+            c = callee(t) or callee_def(t) or "?"
+            c = _re.sub(r"<[^<>]*>", "", c)
+            c = "::".join(c.split("::")[-2:])
+            cs.add("<self>" if c.endswith("::" + own) or c == own else c)
+    ks = set()
+    for q in F.with_closures(f.path):
+        g = F.fns.get(q)
+        if g is None:
+            continue
+        for op in all_operands(g):
+            k = op.get("k") if isinstance(op, dict) else None
+            if isinstance(k, dict):
+                if k.get("variant"):
+                    ks.add(str(k["variant"]))
+                elif "str" in k:
+                    ks.add("s:" + str(k["str"])[:24])
+        for b, i, s_ in g.stmts():
+            rv = s_.get("rv") or {}
+            if rv.get("k") == "agg" and rv.get("variant") and not rv.get("ops"):
+                ks.add(str(rv["variant"]))
+    return {"sig": [f.d.get("inputs", []), f.d.get("output")], "callees": sorted(cs), "consts": sorted(ks)}
+
+
 class Facts:
-    def __init__(self, directory, info=None):
+    def __init__(self, directory, info=None, aliases=True):
         self.dir = directory
         self.info = info or {}
+        self.renamed = {}          # reviewed name -> current name, for functions recognised as renamed/moved
+        self._load(directory, {})
+        if aliases:
+            al = self._aliases()
+            if al:
+                self.renamed = al
+                self._load(directory, {new: old for old, new in al.items()})
+
+    def _aliases(self):
+        """functions of the reviewed tree that are gone, matched to new functions with the same signature and callees"""
+        here = os.path.dirname(os.path.dirname(os.path.abspath(__file__)))
+        fpp = os.path.join(here, "rules", "fingerprints.json")
+        if not os.path.exists(fpp):
+            return {}
+        with open(fpp) as fh:
+            ref = json.load(fh)
+        cur = {p: f for p, f in self.fns.items() if f.blocks and "{closure" not in p and not p.startswith("[bin]")}
+        missing = [p for p in ref if p not in cur]
+        fresh = [p for p in cur if p not in ref]
+        if not missing or not fresh:
+            return {}
+        fps = {p: fingerprint(self, cur[p]) for p in fresh}
+        scored = []
+        for m in missing:
+            crate = m.lstrip("<").split("::", 1)[0]
+            a = set(ref[m]["callees"])
+            for q in fresh:
+                if q.lstrip("<").split("::", 1)[0] != crate or fps[q]["sig"] != ref[m]["sig"]:
+                    continue
+                b = set(fps[q]["callees"])
+                j = len(a & b) / len(a | b) if (a | b) else 1.0
+                ka, kb = set(ref[m].get("consts", [])), set(fps[q].get("consts", []))
+                if ka or kb:
+                    j = (j + len(ka & kb) / len(ka | kb)) / 2
+                scored.append((j, m, q))
+        scored.sort(reverse=True)
+        out, used = {}, set()
+        for j, m, q in scored:
+            if j < 0.8 or m in out or q in used:
+                continue
+            # ambiguous: another unused candidate for m nearly as good
+            rivals = [j2 for j2, m2, q2 in scored if m2 == m and q2 != q and q2 not in used and j2 > j - 0.2]
+            if rivals:
+                continue
+            out[m] = q
+            used.add(q)
+        return out
+
+    def _load(self, directory, subst):
+        import re as _re
         self.units = {}
         self.fns = {}
         self.adts = {}
@@ -323,7 +406,11 @@ class Facts:
         self.traits = {}
         for u in X.UNITS:
             with open(os.path.join(directory, u + ".json")) as fh:
-                d = json.load(fh)
+                txt = fh.read()
+            # a renamed function is given back the name it was reviewed under, everywhere (definition, closures, call sites)
+            for new, old in sorted(subst.items(), key=lambda kv: -len(kv[0])):
+                txt = _re.sub(_re.escape(json.dumps(new)[1:-1]) + r"(?![A-Za-z0-9_])", lambda m_, old=old: json.dumps(old)[1:-1], txt)
+            d = json.loads(txt)
             self.units[u] = d
             is_bin = u.endswith("executable")
             for f in d["fns"]:
@@ -346,9 +433,9 @@ class Facts:
         self._closures_of = None
 
     @classmethod
-    def current(cls):
+    def current(cls, aliases=True):
         d, info = X.extract()
-        return cls(d, info)
+        return cls(d, info, aliases)
 
     def fn(self, path):
         f = self.fns.get(path)
